@@ -45,6 +45,7 @@ Definition model_expect (pol : policy) (kind : Z) (s : site) (toks : list Z) : e
   | ZeroOnly ops | ZeroOnlyLoose ops => run_paths s ops (fun _ => true) toks
   | ZeroOnlyWhen c ops => if (kind =? 1)%Z then run_paths s ops (fun p => mem c (p_conds p)) toks else MayReturn
   | Consistent a => run_paths s [a] (fun _ => true) toks
+  | PreservesOrZeroOnly ops => run_paths s ops (fun _ => true) toks
   | Preserves _ | Computes | NoArrayResult | CallerGuarded => MayReturn
   end.
 
@@ -76,6 +77,9 @@ Definition tag_matrix (c : matrix_case) : Z :=
   | _, _ => 2
   end.
 
+(* verdict and branch tag in one pass: 4 * verdict + tag + 1 (never 0, so run_judge reports every case) *)
+Definition judge_matrix_tagged (c : matrix_case) : Z := 4 * judge_matrix c + tag_matrix c + 1.
+
 (* probes: (kind, AUTO_DENSIFY, func(fills, ndarrays) constant?, result shape, ndarray shape, size of the array,
    outcome class, result is dense?)
    kind 0: implicit coercion through __array__;  1: NumPy function without sparse counterpart (TypeError, or the
@@ -84,9 +88,10 @@ Definition tag_matrix (c : matrix_case) : Z :=
 Definition probe_case := (Z * bool * bool * list Z * list Z * Z * Z * bool)%type.
 
 (* 0 ok | 11 coercion not refused | 12 auto-densify result wrong | 13 dense-mix rule | 14 scalar rule
-   | 15 silently wrong | 5 hang *)
+   | 15 silently wrong | 16 maybe_densify rule | 5 hang *)
 Definition judge_probe (c : probe_case) : Z :=
   let '(kind, auto, const, shape, nshape, size, out, dense) := c in
+  if (out =? O_UNSUPPORTED)%Z then 0 else
   if (out =? O_HANG)%Z then 5 else
   if (kind =? 0)%Z then
     match array_coerce auto (VInt 0) with
@@ -108,4 +113,28 @@ Definition judge_probe (c : probe_case) : Z :=
     | Raise ValueError => if (out =? O_VALUEERROR)%Z then 0 else 14
     | r => if is_dense_result r && (out =? O_RIGHT)%Z then 0 else if (out =? O_WRONG)%Z then 15 else 14
     end
+  else if (kind =? 4)%Z then
+    (* x.maybe_densify(max_size, min_density): size = x.size, shape = [max_size], const = (x.density < min_density) *)
+    match maybe_densify_coo size (hd 0 shape) const, maybe_densify_gcxs size (hd 0 shape) const with
+    | Raise ValueError, Raise ValueError => if (out =? O_VALUEERROR)%Z then 0 else 16
+    | r, r' => if is_dense_result r && is_dense_result r' && (out =? O_RIGHT)%Z && dense then 0
+               else if (out =? O_WRONG)%Z then 15 else 16
+    end
   else 1.
+
+(* kernel-level correspondence of the guards themselves: (kind: 0 check_zero_fill_value | 1 check_consistent_fill_value
+   | 2 check_fill_value;  accept mode for kind 2: 0 default | 1 scalar | 2 list;  operands: Some fill token, None = an
+   operand without fill_value (ndarray);  accept values;  outcome: 0 returned | 1 ValueError | 3 other exception) *)
+Definition guard_case := (Z * Z * list (option Z) * list Z * Z)%type.
+
+Definition opv (o : option Z) : pyv := match o with Some t => VInt t | None => VNone end.
+
+Definition judge_guard (c : guard_case) : Z :=
+  let '(kind, amode, ops, acc, out) := c in
+  let r :=
+    if (kind =? 0)%Z then check_zero_fill_value (map opv ops)
+    else if (kind =? 1)%Z then check_consistent_fill_value (map opv ops)
+    else check_fill_value (opv (hd None ops))
+           (if (amode =? 0)%Z then VNone else if (amode =? 1)%Z then VInt (hd 0 acc) else VTuple (map VInt acc)) in
+  let m := match r with Ok _ => 0 | Raise ValueError => 1 | Raise _ => 3 end in
+  if (m =? out)%Z then 0 else 21.
